@@ -1,13 +1,13 @@
 (** Single entry point of the extracted model: name of the case kind -> function. *)
 From Coq Require Import List NArith ZArith String.
-From Tongo Require Import Lib.Bits Lib.Sx Generated.Consts Harness.H06.
+From Tongo Require Import Lib.Bits Lib.Sx Harness.H06.
 Import ListNotations.
 Local Open Scope string_scope.
 
 Definition run (name : string) (a : sx) : sx :=
   let is x := String.eqb name x in
-  if is "c06.seq" then H06.run_seq tab64 a
-  else if is "c06.fromfift" then H06.run_from_fift suffix_to_bits a
+  if is "c06.seq" then H06.run_seq a
+  else if is "c06.fromfift" then H06.run_from_fift a
   else if is "c06.tofift" then H06.run_to_fift a
-  else if is "c06.minbits" then H06.run_minbits tab64 a
+  else if is "c06.minbits" then H06.run_minbits a
   else sx_err "unknown case kind".
